@@ -269,7 +269,7 @@ def generate(prop, rng, tier):
             spec["values"] = [spec["values"][q] for q in keep]
         pool.append(spec)
     steps = []
-    for _ in range(rng.randint(5, 14)):
+    for _ in range(rng.randint(5, 14) if rng.random() > 0.03 else rng.randint(40, 70)):
         r = rng.random()
         if r < 0.68:
             steps.append({"op": "bc", "obj": rng.randrange(64) if rng.random() < 0.6 else 0, "prm": rng.randrange(64),
@@ -984,3 +984,14 @@ def describe(prop):
                             "no exception is injected inside broadcast: C13 does not say operands survive a failed call",
                             "level names are strings (incl. the empty string) or None; integer level names are excluded because pandas itself cannot tell a level named 0 from level number 0"],
             "required_probes": ["probe:held_broadcaster_reused", "op:bc", "op:bc_scalar", "op:bc_array", "op:bc_drop", "op:derived_calculation", "op:ms_transform", "op:ms_mutate_in_place", "probe:reentered_operand", "seam:uuid4_calls"]}
+
+
+def canary():
+    """Fresh operands, a fresh Broadcaster and a fresh Woehler accessor on fixed inputs."""
+    a = pd.Series([1.25, 2.25, 3.25, 4.25], index=pd.MultiIndex.from_tuples([("x", 0), ("x", 1), ("y", 0), ("y", 1)], names=["b", "a"]))
+    b = pd.DataFrame({"p": [10.5, 20.5]}, index=pd.Index([1, 0], name="a"))
+    prm, obj = Broadcaster(a).broadcast(b)
+    wc = pd.DataFrame({"k_1": [5.0, 7.0], "ND": [1e6, 2e6], "SD": [100.0, 250.0], "k_2": [9.0, float("inf")],
+                       "TN": 4.0, "TS": 1.25, "failure_probability": 0.5}, index=pd.Index([3, 8], name="element_id"))
+    cyc = wc.woehler.cycles(pd.Series([120.0, 300.0], index=pd.Index(["s1", "s2"], name="scenario")), 0.1)
+    return [snapshot(obj)["rows"], snapshot(obj)["values"], snapshot(prm)["values"], snapshot(cyc)["rows"], snapshot(cyc)["values"]]
